@@ -1,0 +1,158 @@
+//go:build verif
+
+package main
+
+// Hooks of the verification harness: one event per action of the pipeline
+// (walker add/send, worker take/parse/rsend, printer ptake/print, main
+// wait/close) written to $VERIF_CLI_TRACE as ND-JSON, and an optional
+// schedule ($VERIF_CLI_SCHED, a JSON list of "actor:act" labels) that the
+// gates enforce: an actor waits in verifGate until its action is the next one
+// of the schedule; the action's verifEv moves the schedule on.
+
+import (
+	"encoding/json"
+	"fmt"
+	"io/ioutil"
+	"os"
+	"reflect"
+	"strconv"
+	"sync"
+	"sync/atomic"
+	"time"
+)
+
+var (
+	verifMu      sync.Mutex
+	verifCond    = sync.NewCond(&verifMu)
+	verifOut     *os.File
+	verifSched   []string
+	verifCur     int
+	verifFree    bool
+	verifSeq     int
+	verifWorkers int32
+	verifMoved   time.Time
+)
+
+func init() {
+	if p := os.Getenv("VERIF_CLI_TRACE"); p != "" {
+		f, err := os.Create(p)
+		if err != nil {
+			panic(err)
+		}
+		verifOut = f
+	}
+	if p := os.Getenv("VERIF_CLI_SCHED"); p != "" {
+		data, err := ioutil.ReadFile(p)
+		if err != nil {
+			panic(err)
+		}
+		if err := json.Unmarshal(data, &verifSched); err != nil {
+			panic(err)
+		}
+		verifMoved = time.Now()
+		stall := 5 * time.Second
+		if s := os.Getenv("VERIF_CLI_STALL_MS"); s != "" {
+			if n, err := strconv.Atoi(s); err == nil {
+				stall = time.Duration(n) * time.Millisecond
+			}
+		}
+		go func() {
+			for {
+				time.Sleep(20 * time.Millisecond)
+				verifMu.Lock()
+				if !verifFree && time.Since(verifMoved) > stall {
+					// the schedule cannot be followed: let everybody run and say so
+					verifFree = true
+					verifLine(`{"seq":` + strconv.Itoa(verifSeq) + `,"stall":` + strconv.Itoa(verifCur) + `}`)
+				}
+				free := verifFree
+				verifCond.Broadcast()
+				verifMu.Unlock()
+				if free {
+					return
+				}
+			}
+		}()
+	}
+}
+
+func verifLine(s string) {
+	if verifOut != nil {
+		_, _ = verifOut.WriteString(s + "\n")
+	}
+}
+
+func verifKey(actor string, id int, act string) string {
+	if actor == "w" {
+		return "w" + strconv.Itoa(id) + ":" + act
+	}
+	return actor + ":" + act
+}
+
+func verifWorkerID() int { return int(atomic.AddInt32(&verifWorkers, 1)) }
+
+func verifGate(actor string, id int, act string) {
+	if verifSched == nil && verifOut == nil {
+		return
+	}
+	key := verifKey(actor, id, act)
+	verifMu.Lock()
+	defer func() {
+		// the action starts here: everything logged before this line happened before it
+		verifSeq++
+		verifLine(fmt.Sprintf(`{"seq":%d,"actor":%q,"id":%d,"act":%q,"begin":true}`, verifSeq, actor, id, act))
+		verifMu.Unlock()
+	}()
+	if verifSched == nil {
+		return
+	}
+	for !verifFree {
+		if verifCur >= len(verifSched) {
+			verifFree = true
+			verifCond.Broadcast()
+			break
+		}
+		if verifSched[verifCur] == key {
+			break
+		}
+		verifCond.Wait()
+	}
+}
+
+func verifAddr(x interface{}) uintptr {
+	v := reflect.ValueOf(x)
+	switch v.Kind() {
+	case reflect.Slice:
+		if v.Cap() == 0 {
+			return 0
+		}
+		return v.Pointer()
+	case reflect.Ptr, reflect.Map, reflect.Chan, reflect.Func, reflect.UnsafePointer:
+		return v.Pointer()
+	}
+	return 0
+}
+
+func verifEv(actor string, id int, act string, path string, objs ...interface{}) {
+	if verifOut == nil && verifSched == nil {
+		return
+	}
+	key := verifKey(actor, id, act)
+	addrs := "["
+	for i, o := range objs {
+		if i > 0 {
+			addrs += ","
+		}
+		addrs += strconv.FormatUint(uint64(verifAddr(o)), 10)
+	}
+	addrs += "]"
+	verifMu.Lock()
+	verifSeq++
+	verifLine(fmt.Sprintf(`{"seq":%d,"actor":%q,"id":%d,"act":%q,"path":%q,"objs":%s}`, verifSeq, actor, id, act, path, addrs))
+	if verifSched != nil && !verifFree && verifCur < len(verifSched) && verifSched[verifCur] == key {
+		verifCur++
+		verifMoved = time.Now()
+		verifCond.Broadcast()
+	}
+	verifMu.Unlock()
+}
